@@ -635,6 +635,9 @@ func HandleUpdateUser(cc *hotline.ClientConn, t *hotline.Transaction) (res []hot
 	// A request with several entries is refused as a whole when the requester lacks the privilege one of them needs:
 	// check every entry before the first one is carried out, so that an error reply never comes with part of the
 	// request done.  (The loop below checks again; an entry may depend on the one before it.)
+	// What the entries checked so far will have created (true) or removed (false) by the time a later entry runs.
+	planned := map[string]bool{}
+
 	for _, field := range t.Fields {
 		if len(field.Data) < 2 {
 			continue
@@ -660,21 +663,32 @@ func HandleUpdateUser(cc *hotline.ClientConn, t *hotline.Transaction) (res []hot
 			if !cc.Authorize(hotline.AccessDeleteUser) {
 				return cc.NewErrReply(t, "You are not allowed to delete accounts.")
 			}
+			if f := hotline.GetField(hotline.FieldData, &subFields); f != nil {
+				planned[string(hotline.EncodeString(f.Data))] = false
+			}
 		case hotline.GetField(hotline.FieldUserLogin, &subFields) == nil:
 			// left to the loop below
 		default:
-			existing := hotline.GetField(hotline.FieldUserLogin, &subFields).Data
+			newLogin := string(hotline.EncodeString(hotline.GetField(hotline.FieldUserLogin, &subFields).Data))
+			existing := newLogin
 			if rename := hotline.GetField(hotline.FieldData, &subFields); rename != nil && len(rename.Data) > 0 {
-				existing = rename.Data
+				existing = string(hotline.EncodeString(rename.Data))
 			}
 
-			if cc.Server.AccountManager.Get(string(hotline.EncodeString(existing))) != nil {
+			present, isPlanned := planned[existing]
+			if !isPlanned {
+				present = cc.Server.AccountManager.Get(existing) != nil
+			}
+
+			if present {
 				if !cc.Authorize(hotline.AccessModifyUser) {
 					return cc.NewErrReply(t, "You are not allowed to modify accounts.")
 				}
+				planned[existing] = false
 			} else if !cc.Authorize(hotline.AccessCreateUser) {
 				return cc.NewErrReply(t, "You are not allowed to create new accounts.")
 			}
+			planned[newLogin] = true
 		}
 	}
 
